@@ -367,7 +367,23 @@ def meme_case(case, ctx):
         p = os.path.join(d, "m.meme")
         with open(p, "w", newline="") as fh:
             fh.write(text)
-        got = sut(read_meme, p, **({"n_motifs": case["n_motifs"]} if case.get("n_motifs") else {}))
+        mk = {"n_motifs": case["n_motifs"]} if case.get("n_motifs") else {}
+        if case.get("reread"):
+            # the same path was read before, when it held other motifs, and the caller edited that earlier result
+            other = text.replace("MOTIF M", "MOTIF X").replace("0.", "0.0", 1) if "MOTIF M" in text else text
+            with open(p, "w", newline="") as fh:
+                fh.write(other)
+            try:
+                first = read_meme(p, **mk)
+                for k_ in list(first.keys())[:1]:
+                    first[k_].mul_(0)
+                    first.pop(k_)
+            except Exception:  # noqa: BLE001
+                pass
+            with open(p, "w", newline="") as fh:
+                fh.write(text)
+            ctx.label("path_read_before_with_other_content")
+        got = sut(read_meme, p, **mk)
     expect = want if not case.get("n_motifs") else want[:case["n_motifs"]]
     require(isinstance(got, dict), "meme-type", str(type(got)))
     for k in got.keys():
@@ -401,7 +417,7 @@ def meme_strategy(draw):
         if m["name_trail"] == " alt_name":
             m["name_trail"] = ""          # a second name token would change the key; not part of the statement
     return {"motifs": motifs, "crlf": draw(st.booleans()), "end": draw(st.sampled_from(["none", "none_after_matrix", "single", "multiple"])),
-            "n_motifs": draw(st.one_of(st.none(), st.none(), st.integers(1, n)))}
+            "n_motifs": draw(st.one_of(st.none(), st.none(), st.integers(1, n))), "reread": draw(st.integers(0, 2)) == 0}
 
 
 def subchecks(tier):
